@@ -37,7 +37,7 @@ type CaseDef struct {
 
 type ExitDef struct {
 	UUID string `json:"uuid"`
-	Dest int    `json:"dest"` // -1: no destination; k: destination node D_k
+	Dest int    `json:"dest"` // -1: no destination; k: destination node D_k; -2: the node under test itself (loop)
 }
 
 type PreRes struct {
@@ -57,6 +57,9 @@ type Scenario struct {
 	TimeoutCat  int    `json:"timeout_category"` // -1: wait without timeout
 	Resume      string `json:"resume"`           // "" | msg | timeout
 	ResumeText  string `json:"resume_text"`
+	// the timeout exit leads back to the node under test, the wait times out a second time, and the SECOND routing is
+	// the one observed (the run then has two wait_timed_out events, created at different times)
+	SecondTimeout bool `json:"second_timeout"`
 
 	Operand    string    `json:"operand"`
 	Cases      []CaseDef `json:"cases"`
@@ -89,6 +92,26 @@ type Scenario struct {
 // the wait of the node under test is really waited on (a msg trigger skips the wait of a first node)
 func (sc *Scenario) needsResume() bool {
 	return sc.Kind != "none" && sc.Wait && !(sc.Trigger == "msg" && !sc.Pre)
+}
+
+// the category a UUID denotes: the first one carrying it
+func (sc *Scenario) firstCat(u string) *CatDef {
+	for i := range sc.Cats {
+		if sc.Cats[i].UUID == u {
+			return &sc.Cats[i]
+		}
+	}
+	return nil
+}
+
+func (sc *Scenario) destUUID(d int) string {
+	switch {
+	case d == -2:
+		return nodeR()
+	case d >= 0:
+		return nodeD(d)
+	}
+	return ""
 }
 
 func mkUUID(kind, i int) string {
@@ -459,6 +482,10 @@ func genTriggerResume(r *hx.Rand, sc *Scenario, inputs []string) {
 		sc.ResumeText = hx.Pick(r, inputs)
 		if sc.TimeoutCat >= 0 && r.Chance(1, 2) {
 			sc.Resume = "timeout"
+			if r.Chance(1, 3) {
+				sc.SecondTimeout = true
+				sc.Exits[sc.firstCat(sc.Cats[sc.TimeoutCat].UUID).Exit].Dest = -2
+			}
 		}
 	}
 }
